@@ -47,7 +47,7 @@ def run_c12(pid, tier):
     })
     v.assumptions += ['TLC/SANY, CommunityModules Json; the table driver harness/drv_kernel.py reports the getters faithfully']
     v.coverage['extension_general_calibration_kernel'] = extension_general(tier)
-    v.coverage['extension_inductive_tiling'] = extension_inductive()
+    v.coverage['extension_inductive_tiling'] = extension_inductive(tin)
     v.finish()
 
 
@@ -71,7 +71,7 @@ def extension_general(tier):
             'deviations': {c: {'count': len(xs), 'first': xs[0]} for c, xs in per.items()}}
 
 
-def extension_inductive():
+def extension_inductive(tin=None):
     """Beyond the bounded model check (advisory clause E12.inductive, never a verdict): spec/KernelInductive.tla builds the cycle kernel
     after kernel and repetition after repetition; Apalache discharges an inductive invariant, so contiguity / disjointness / categories /
     translates hold for every round count, every number of blocks and every number of repetitions, not only up to MaxRound."""
@@ -92,8 +92,28 @@ def extension_inductive():
         except Exception as e:                                                              # advisory only: never a machinery failure of C12
             res[name] = 'not run: %r' % (e,)
     ok = all(x == 'NoError' for x in res.values())
+    trace = {'status': 'not run'}
+    if tin is not None:
+        # binding: the recorded real kernels, read as behaviours of the same action system (spec/KernelInductiveTrace.tla)
+        try:
+            import re
+            tev = tin.replace('.json', '_events.json')
+            run_impl('drv_kernel_events.py', [tin, tev, common.seed()])
+            evs = json.load(open(tev))
+            tr = run_tlc('KernelInductiveTrace', 'SPECIFICATION TSpec\nINVARIANT IndInv\nCHECK_DEADLOCK FALSE\n', env={'VERIF_IN': tev}, workers=1, timeout=900)
+            acc = set(int(x) for x in re.findall(r'"ACCEPT", (\d+)', tr.out))
+            rej = [j for j in range(1, len(evs) + 1) if j not in acc]
+            trace = {'clause': 'E12.inductive.trace', 'rows': len(evs), 'accepted': len(acc), 'distinct_states': tr.distinct,
+                     'invariant_held': 'No error has been found' in tr.out,
+                     'largest_round_count': max([max(e['rounds']) for e in evs] or [0]),
+                     'rejected': [{k: evs[j - 1][k] for k in ('rounds', 'H', 'K', 'reps')} for j in rej[:5]],
+                     'rule': 'every recorded experiment kernel of the C12 table plus 6 descriptions with round counts up to 2000 and up to 12 repetitions: '
+                             'one Append per real kernel (real start/stop/heralded/stabilizer/final indices logged), Close (real cycle length, calibration start), '
+                             'one NextRep per further repetition (real offset logged); witnesses chosen by TLC; IndInv checked in every state'}
+        except Exception as e:                                                              # advisory only
+            trace = {'status': 'not run: %r' % (e,)}
     return {'status': 'advisory: unbounded design-level argument for C12 (E12.inductive)', 'tool': 'apalache-mc 0.58 (SMT, integers unbounded)',
-            'module': 'KernelInductive', 'invariant': 'IndInv = TypeOK /\\ Tiling /\\ Categories /\\ Calibration /\\ Translates', 'steps': res, 'proved': ok,
+            'module': 'KernelInductive', 'trace_binding': trace, 'invariant': 'IndInv = TypeOK /\\ Tiling /\\ Categories /\\ Calibration /\\ Translates', 'steps': res, 'proved': ok,
             'scope': 'every round count in Nat, every number of blocks, both heralded settings, calibration on/off, every number of repetitions'}
 
 
